@@ -39,6 +39,9 @@ type likeCase struct {
 	// Pattern2: the filter is Or(s cmp Pattern, s cmp Pattern2): rows selected by the first member stay selected
 	Pattern2 string `json:"pattern2,omitempty"`
 	HasP2    bool   `json:"has_p2,omitempty"`
+	// Strict (enum): the enum column is declared over exactly its values (newqf.Enums with a value list)
+	// instead of deriving them from the data: patterns are still patterns, not constants to validate
+	Strict bool `json:"strict,omitempty"`
 }
 
 var c18cells []string
@@ -73,7 +76,7 @@ func c18Cells() []string {
 			out = append(out, strings.Repeat("A", k)+tail, strings.Repeat("7", k)+tail)
 		}
 	}
-	out = append(out, "42", "A b", `\d\d`, `\`, `a\`, "x7")
+	out = append(out, "42", "A b", `\d\d`, `\`, `a\`, "x7", `a\b`, `a\\`, "a%", `ba\`, `.\x`)
 	c18cells = out
 	return out
 }
@@ -105,6 +108,8 @@ type c18Frames struct {
 	enum map[string][]qframe.QFrame
 	// enumRot: per chunk a column with the same values, middle rotated
 	enumRot map[string][]qframe.QFrame
+	// enumStrict: per chunk the column declared over its values
+	enumStrict map[string][]qframe.QFrame
 }
 
 var c18env *c18Frames
@@ -113,7 +118,7 @@ func c18Env() *c18Frames {
 	if c18env != nil {
 		return c18env
 	}
-	e := &c18Frames{str: map[string]qframe.QFrame{}, cell: map[string][]string{}, enum: map[string][]qframe.QFrame{}, enumRot: map[string][]qframe.QFrame{}}
+	e := &c18Frames{str: map[string]qframe.QFrame{}, cell: map[string][]string{}, enum: map[string][]qframe.QFrame{}, enumRot: map[string][]qframe.QFrame{}, enumStrict: map[string][]qframe.QFrame{}}
 	for _, order := range []string{"asc", "desc", "interleaved"} {
 		cells := orderCells(c18Cells(), order)
 		e.cell[order] = cells
@@ -144,6 +149,7 @@ func c18Env() *c18Frames {
 				id2[i] = i
 			}
 			e.enum[order] = append(e.enum[order], qframe.New(map[string]interface{}{"s": p, "id": id2}, newqf.Enums(map[string][]string{"s": nil})))
+			e.enumStrict[order] = append(e.enumStrict[order], qframe.New(map[string]interface{}{"s": p, "id": id2}, newqf.Enums(map[string][]string{"s": append([]string{}, cells[start:end]...)})))
 			// the same values with the middle rotated by one: same cardinality, same first and last value,
 			// other internal numbering (a result remembered for the first column must not be served for this one)
 			if len(p) > 4 {
@@ -186,7 +192,17 @@ func runLikeCase(c likeCase) *core.Failure {
 		}
 		var opts []newqf.ConfigFunc
 		if c.Enum {
-			opts = append(opts, newqf.Enums(map[string][]string{"s": nil}))
+			var decl []string
+			if c.Strict {
+				seen := map[string]bool{}
+				for _, v := range c.Seq {
+					if !seen[v] {
+						seen[v] = true
+						decl = append(decl, v)
+					}
+				}
+			}
+			opts = append(opts, newqf.Enums(map[string][]string{"s": decl}))
 		}
 		qf = qframe.New(map[string]interface{}{"s": ptrs, "id": ids}, opts...)
 	} else {
@@ -196,6 +212,9 @@ func runLikeCase(c likeCase) *core.Failure {
 				return core.Failf("bad chunk")
 			}
 			qf = env.enum[c.Order][c.Chunk]
+			if c.Strict {
+				qf = env.enumStrict[c.Order][c.Chunk]
+			}
 			if c.Rot {
 				qf = env.enumRot[c.Order][c.Chunk]
 			}
@@ -315,7 +334,11 @@ func runLikeDegenerate(c likeCase) *core.Failure {
 	ids := make([]int, len(ptrs))
 	var opts []newqf.ConfigFunc
 	if c.Enum {
-		opts = append(opts, newqf.Enums(map[string][]string{"s": nil}))
+		var decl []string
+		if c.Strict {
+			decl = []string{"cd", "ab"}
+		}
+		opts = append(opts, newqf.Enums(map[string][]string{"s": decl}))
 	}
 	qf := qframe.New(map[string]interface{}{"s": ptrs, "id": ids}, opts...)
 	leaf := qframe.Filter{Column: "s", Comparator: c.Cmp, Arg: c.Pattern}
@@ -355,7 +378,9 @@ func c18Patterns() []string {
 	rec("", 3)
 	out = append(out, "%aaaaaaaaaa", "aaaaaaaaaaa%", "%AAAA\u00df%", "%bbbbbbbbbbbb%", "aaaaaaaaaaaaaa\u0131", "%a.%", "a|b", "[a", "a*", "%\u212a%", "%k%",
 		// patterns whose only regular-expression metacharacter is the backslash
-		`%\d%`, `\d\d`, `A\sb`, `\w`, `%\x41`, `7777\S`, `\\`, `a\`, `%\d\d\d\d\d%`)
+		`%\d%`, `\d\d`, `A\sb`, `\w`, `%\x41`, `7777\S`, `\\`, `a\`, `%\d\d\d\d\d%`,
+		// backslashes directly in front of a leading / trailing %: an escaped backslash and a wildcard
+		`a\\%`, `%a\\%`, `.\\%`, `\\%`, `%\\`, `%\\%`, `a\\\\%`, `a\%`, `%\%`, `\%`, `a\\\%`)
 	return out
 }
 
@@ -401,6 +426,9 @@ func c18Run(ctx *core.Ctx) {
 					for ch := range env.enum[order] {
 						if ctx.Mine() {
 							exec(likeCase{Pattern: p, Cmp: cmp, Order: order, Enum: true, Chunk: ch}, "enum/"+cmp)
+							if order == "asc" {
+								exec(likeCase{Pattern: p, Cmp: cmp, Order: order, Enum: true, Chunk: ch, Strict: true}, "enum-declared/"+cmp)
+							}
 							// directly afterwards, in the same process, the sibling column
 							exec(likeCase{Pattern: p, Cmp: cmp, Order: order, Enum: true, Chunk: ch, Rot: true}, "enum-rotated/"+cmp)
 						}
@@ -439,12 +467,15 @@ func c18Run(ctx *core.Ctx) {
 		})
 	}
 	// degenerate columns: no cell to look at; the pattern's validity must still be decided
-	for _, p := range []string{"a(b", "%[x%", "x)y", "(", "a", "%", "a.*", ""} {
+	for _, p := range []string{"a(b", "%[x%", "x)y", "(", "a", "%", "a.*", "", "ab", "AB", "zz"} {
 		for _, cmp := range []string{"like", "ilike"} {
-			for _, deg := range []string{"zero", "allnull", "or-all", "filtered-null"} {
+			for _, deg := range []string{"zero", "allnull", "or-all", "filtered-null", "plain"} {
 				for _, en := range []bool{false, true} {
 					if ctx.Mine() {
 						exec(likeCase{Pattern: p, Cmp: cmp, Degenerate: deg, Enum: en}, "degenerate")
+					}
+					if en && ctx.Mine() {
+						exec(likeCase{Pattern: p, Cmp: cmp, Degenerate: deg, Enum: en, Strict: true}, "degenerate-declared")
 					}
 				}
 			}
